@@ -356,8 +356,10 @@ impl Check for C16 {
                         } else {
                             if succeeded {
                                 out.viol("reply", "success-without-tunnel", format!("CONNECT {}:{} cannot be established (target {} / resolvable {}), yet the reply says succeeded", h, p, target_policy, resolvable));
-                            } else if !(rest.len() == 10 && rest[0] == 5 && rest[1] != 0) && !(rest.is_empty() && closed) {
-                                out.viol("reply", "failure-reply-malformed", format!("failed CONNECT: reply bytes {:02x?}", rest));
+                            } else if !(rest.len() == 10 && rest[0] == 5 && rest[1] != 0) {
+                                // a well-formed CONNECT whose tunnel cannot be established is answered with a failure code
+                                let cause = if dial.is_none() { "unresolvable-name" } else { target_policy };
+                                out.viol("reply", format!("failure-reply-missing-or-malformed:{}", cause), format!("CONNECT {}:{} cannot be established ({}); reply bytes {:02x?} (closed: {})", h, p, cause, rest, closed));
                             }
                             if new_dials.iter().any(|d| d.1 == "ok") {
                                 out.viol("tunnel", "tunnel-unexpected", format!("server completed a connect {:?}", new_dials));
